@@ -1608,10 +1608,13 @@ def _wav_case(draw, tier):
             if a not in ax:
                 shape[a] = draw(st.sampled_from([1, 2, 3]))
         while int(np.prod(shape)) > budget:
-            i = int(np.argmax(shape))
-            shape[i] = 2 ** level if i in ax else 1
-            if all(shape[a] == 2 ** level for a in ax) and all(
-                    shape[a] == 1 for a in range(nd) if a not in ax):
+            free = [a for a in range(nd) if a not in ax and shape[a] > 1]
+            big = [a for a in ax if shape[a] > 2 ** level]
+            if free:
+                shape[max(free, key=lambda a: shape[a])] = 1
+            elif big:
+                shape[max(big, key=lambda a: shape[a])] = 2 ** level
+            else:
                 break
         mode = 'pywt_periodic'
         nlevels = level
